@@ -253,6 +253,8 @@ func decodeRowsMetadata(source io.Reader, version primitive.ProtocolVersion) (me
 	var flags = primitive.RowsFlag(f)
 	if metadata.ColumnCount, err = primitive.ReadInt(source); err != nil {
 		return nil, fmt.Errorf("cannot read RESULT Rows metadata column count: %w", err)
+	} else if metadata.ColumnCount < 0 {
+		return nil, fmt.Errorf("cannot read RESULT Rows metadata: expected column count >= 0, got: %d", metadata.ColumnCount)
 	}
 	if flags.Contains(primitive.RowsFlagHasMorePages) {
 		if metadata.PagingState, err = primitive.ReadBytes(source); err != nil {
